@@ -98,6 +98,16 @@ fn main() {
             let path = runner::write_replay(&opts.verif_dir, prop, &rec);
             runner::replay(&path, &opts)
         }
+        "selftest-q" => match sfverif::q::selftest(2_000_000) {
+            Ok(n) => {
+                println!("exact scalar self-test: {n} operations agree with BigRational arithmetic");
+                0
+            }
+            Err(e) => {
+                eprintln!("HARNESS-ERROR: exact scalar self-test failed: {e}");
+                2
+            }
+        },
         "list" => {
             for p in sfverif::props::PROPERTIES {
                 for c in sfverif::props::clauses(p) {
